@@ -219,6 +219,10 @@ package main
 //@ func ParseConfig
 //@   mode permissive
 //@   allocates
+//@   only [C04,C10,C11] thermalRecorderConfig in Unmarshal#2, store, use:Return
+//@   only [C11] locationConfig in Unmarshal#1, store, use:Return
+//@   only [C11] deviceConfig in Unmarshal#4, store, use:Return
+//@   only [C11,C14] leptonConfig in Unmarshal#3, store, use:Return
 //@   check [C11] result1 == nil ==> result0 != nil && sitehappened("NewConfig", 1) && sitehappened("NewConfig", 2) && siteres("NewConfig", 1).1 == nil && siteres("NewConfig", 2).1 == nil
 //@   check [C11] sitehappened("Unmarshal", 4) ==> result1 == nil ==> result0.ConfigDir == configFolder && result0.DeviceID == deviceConfig.ID && result0.DeviceName == deviceConfig.Name && result0.FrameInput == leptonConfig.FrameOutput && result0.OutputDir == thermalRecorderConfig.OutputDir && result0.MinDiskSpace == thermalRecorderConfig.MinDiskSpaceMB && !result0.Verbose
 //@   check [C11] result1 == nil && sitehappened("NewConfig", 1) && sitehappened("NewConfig", 2) ==> result0.Recorder.MinSecs == siteres("NewConfig", 1).0.MinSecs && result0.Recorder.MaxSecs == siteres("NewConfig", 1).0.MaxSecs && result0.Recorder.PreviewSecs == siteres("NewConfig", 1).0.PreviewSecs && result0.Recorder.ConstantRecorder == siteres("NewConfig", 1).0.ConstantRecorder
